@@ -4,6 +4,7 @@ import (
 	"sort"
 
 	v1 "k8s.io/api/core/v1"
+	resourceapi "k8s.io/api/resource/v1"
 	schedulingv1 "k8s.io/api/scheduling/v1"
 	metav1 "k8s.io/apimachinery/pkg/apis/meta/v1"
 
@@ -63,6 +64,27 @@ func (s *Store) ReadAll() *spec.Objects {
 			o.Topologies = append(o.Topologies, l.(*kaiv1alpha1.TopologyList).Items[i].DeepCopy())
 		}
 	}
+	rgv := resourceapi.SchemeGroupVersion
+	if l, err := s.Tracker.List(rgv.WithResource("deviceclasses"), rgv.WithKind("DeviceClass"), ""); err == nil {
+		for i := range l.(*resourceapi.DeviceClassList).Items {
+			o.DeviceClasses = append(o.DeviceClasses, l.(*resourceapi.DeviceClassList).Items[i].DeepCopy())
+		}
+	}
+	if l, err := s.Tracker.List(rgv.WithResource("resourceslices"), rgv.WithKind("ResourceSlice"), ""); err == nil {
+		for i := range l.(*resourceapi.ResourceSliceList).Items {
+			o.ResourceSlices = append(o.ResourceSlices, l.(*resourceapi.ResourceSliceList).Items[i].DeepCopy())
+		}
+	}
+	if l, err := s.Tracker.List(rgv.WithResource("resourceclaims"), rgv.WithKind("ResourceClaim"), ""); err == nil {
+		for i := range l.(*resourceapi.ResourceClaimList).Items {
+			o.ResourceClaims = append(o.ResourceClaims, l.(*resourceapi.ResourceClaimList).Items[i].DeepCopy())
+		}
+	}
+	sort.Slice(o.DeviceClasses, func(i, j int) bool { return o.DeviceClasses[i].Name < o.DeviceClasses[j].Name })
+	sort.Slice(o.ResourceSlices, func(i, j int) bool { return o.ResourceSlices[i].Name < o.ResourceSlices[j].Name })
+	sort.Slice(o.ResourceClaims, func(i, j int) bool {
+		return key(&o.ResourceClaims[i].ObjectMeta) < key(&o.ResourceClaims[j].ObjectMeta)
+	})
 	sort.Slice(o.Pods, func(i, j int) bool { return key(&o.Pods[i].ObjectMeta) < key(&o.Pods[j].ObjectMeta) })
 	sort.Slice(o.Nodes, func(i, j int) bool { return o.Nodes[i].Name < o.Nodes[j].Name })
 	sort.Slice(o.Queues, func(i, j int) bool { return o.Queues[i].Name < o.Queues[j].Name })
